@@ -53,6 +53,11 @@ theorem fields_sound : ∀ r ∈ iterStructs,
     .phantomMutRef ∈ r.fields ∧ .nonNull ∈ r.fields ∧
     (∀ (s y : Bool), ∀ tr ∈ [TraitName.send, TraitName.sync], r.fields.all (fieldHas ⟨s, y⟩ tr) = false) := by decide
 
+/-- both iterators keep the matrix mutably borrowed while they live (the marker carries `'a`): a
+client cannot touch the matrix, or open a second iterator, while any of them is alive -/
+theorem iterators_hold_the_borrow : ∀ name ∈ [outerType, innerType], ∃ n, name = some n ∧ holdsMutBorrow n = true := by
+  decide
+
 /-! ### run-time half -/
 
 variable {α V : Type}
